@@ -48,8 +48,12 @@ RECURSIVE CompReqOf(_, _)
 CompReqOf(e, ex) == [name |-> Attr(e, "name"), allprops |-> HasKid(e, CAL, "allprop"), props |-> Map(Kids(e, CAL, "prop"), LAMBDA p : Attr(p, "name")),
                      allcomps |-> HasKid(e, CAL, "allcomp"), comps |-> Map(Kids(e, CAL, "comp"), LAMBDA k : CompReqOf(k, << >>)), expand |-> ex]
 DataEl(d) == Kids(Kids(d, DAV, "prop")[1], CAL, "calendar-data")[1]
-DataOf(d) == LET cd == DataEl(d) IN
-             CompReqOf(Kids(cd, CAL, "comp")[1], Map(Kids(cd, CAL, "expand"), LAMBDA x : [s |-> Attr(x, "start"), e |-> Attr(x, "end")]))
+\* RFC 4791 9.6: calendar-data (comp?, expand?): without comp everything is requested (the API then carries no component name)
+DataOf(d) == LET cd == DataEl(d)
+                 ex == Map(Kids(cd, CAL, "expand"), LAMBDA x : [s |-> Attr(x, "start"), e |-> Attr(x, "end")]) IN
+             IF Kids(cd, CAL, "comp") = << >>
+             THEN [name |-> "", allprops |-> TRUE, props |-> << >>, allcomps |-> TRUE, comps |-> << >>, expand |-> ex]
+             ELSE CompReqOf(Kids(cd, CAL, "comp")[1], ex)
 QueryDenotes(d) == [comp |-> DataOf(d), filter |-> CompFOf(Kids(Kids(d, CAL, "filter")[1], CAL, "comp-filter")[1])]
 MultigetDenotes(d) == [comp |-> DataOf(d), hrefs |-> Map(Kids(d, DAV, "href"), Chars)]
 
@@ -65,9 +69,11 @@ CFShape(e) == /\ HasAttr(e, "name") /\ Len(Kids(e, CAL, "time-range")) <= 1
               /\ \A i \in 1..Len(Kids(e, CAL, "comp-filter")) : CFShape(Kids(e, CAL, "comp-filter")[i])
 DataShape(d) == /\ Len(Kids(d, DAV, "prop")) = 1 /\ Len(Kids(Kids(d, DAV, "prop")[1], CAL, "calendar-data")) = 1
                 /\ LET cd == DataEl(d) IN
-                     /\ Len(Kids(cd, CAL, "comp")) = 1 /\ NamedAll(Kids(cd, CAL, "comp")[1], "comp") /\ Len(Kids(cd, CAL, "expand")) <= 1
+                     /\ Len(Kids(cd, CAL, "comp")) <= 1 /\ Len(Kids(cd, CAL, "expand")) <= 1
                      /\ \A i \in 1..Len(Kids(cd, CAL, "expand")) : HasAttr(Kids(cd, CAL, "expand")[i], "start") /\ HasAttr(Kids(cd, CAL, "expand")[i], "end")
-                     /\ \A i \in 1..Len(Kids(Kids(cd, CAL, "comp")[1], CAL, "prop")) : HasAttr(Kids(Kids(cd, CAL, "comp")[1], CAL, "prop")[i], "name")
+                     /\ \A c \in 1..Len(Kids(cd, CAL, "comp")) :
+                          /\ NamedAll(Kids(cd, CAL, "comp")[c], "comp")
+                          /\ \A i \in 1..Len(Kids(Kids(cd, CAL, "comp")[c], CAL, "prop")) : HasAttr(Kids(Kids(cd, CAL, "comp")[c], CAL, "prop")[i], "name")
 QueryShape(d) == /\ d.ns = CAL /\ d.name = "calendar-query" /\ DataShape(d)
                  /\ Len(Kids(d, CAL, "filter")) = 1 /\ Len(Kids(Kids(d, CAL, "filter")[1], CAL, "comp-filter")) = 1
                  /\ CFShape(Kids(Kids(d, CAL, "filter")[1], CAL, "comp-filter")[1])
@@ -86,5 +92,5 @@ CROrder(e) == /\ Before(e, CAL, "allprop", CAL, "allcomp") /\ Before(e, CAL, "al
               /\ \A i \in 1..Len(Kids(e, CAL, "comp")) : CROrder(Kids(e, CAL, "comp")[i])
 QueryOrder(d) == /\ Before(d, DAV, "prop", CAL, "filter")
                  /\ CFOrder(Kids(Kids(d, CAL, "filter")[1], CAL, "comp-filter")[1])
-                 /\ Before(DataEl(d), CAL, "comp", CAL, "expand") /\ CROrder(Kids(DataEl(d), CAL, "comp")[1])
+                 /\ Before(DataEl(d), CAL, "comp", CAL, "expand") /\ \A c \in 1..Len(Kids(DataEl(d), CAL, "comp")) : CROrder(Kids(DataEl(d), CAL, "comp")[c])
 =============================================================================
